@@ -1,37 +1,964 @@
 /-
 SDP no-fault refinement (C10): the SDP host model in closed loop with the live reference ROM (serial protocol and USB-HID
 reports) has exactly the effect `Sdp.specOp` defines; SDPS delivers the image once and in order.
+
+Structure of the proof: `Linked h r pend` is the link invariant (host `h` talks to ROM `r`, `pend` = the ROM's answers not
+yet read, as a list of messages that is laid out as bytes on the serial protocol and as HAB / RET reports over USB-HID);
+one lemma per primitive (`sendFrame_cmd`, `sendFrame_data`, `sendFrame_empty`, `protoRead_linked`), one per host routine
+(`processCmd_linked`, `readStatus_linked`, `readData_linked`, `sendData_linked`), one per ROM command (`rom_*`).
 -/
 import SpsdkVerif.Model.Sdp
 import SpsdkVerif.Proofs.Sdp
 
+set_option linter.unusedSimpArgs false
+set_option linter.unusedVariables false
+
 namespace SpsdkVerif.Sdp
 open SpsdkVerif SpsdkVerif.Sdp.S
+
+/-! ### framing -/
+
+theorem framesOf_nil (rid size f : Nat) : framesOf rid size f [] = [] := by
+  cases f <;> simp [framesOf]
+
+theorem padTo_length (n : Nat) (b : Bytes) : (padTo n b).length = b.length + (n - b.length) := by
+  simp [padTo]
+
+theorem div_step (n size : Nat) (hs : 0 < size) (hn : 0 < n) :
+    (n - size + size - 1) / size + 1 = (n + size - 1) / size := by
+  have e : n + size - 1 = (n - 1) + size := by omega
+  rw [e, Nat.add_div_right _ hs]
+  by_cases h : n ≤ size
+  · have e1 : n - size + size - 1 = size - 1 := by omega
+    rw [e1, Nat.div_eq_of_lt (by omega), Nat.div_eq_of_lt (by omega)]
+  · have e1 : n - size + size - 1 = n - 1 := by omega
+    rw [e1]
+
+theorem framesOf_deliver (rid size : Nat) (hs : 0 < size) : ∀ (f : Nat) (b : Bytes), b.length ≤ f →
+    (((framesOf rid size f b).map (List.drop 1)).flatten.take b.length = b) ∧
+    (∀ x ∈ framesOf rid size f b, x.length = 1 + size ∧ x.head? = some (UInt8.ofNat rid)) ∧
+    ((framesOf rid size f b).length = (b.length + size - 1) / size) := by
+  intro f
+  induction f with
+  | zero =>
+    intro b hb
+    have : b = [] := List.eq_nil_of_length_eq_zero (by omega)
+    subst this
+    simp [framesOf, Nat.div_eq_of_lt (show size - 1 < size by omega)]
+  | succ f ih =>
+    intro b hb
+    cases b with
+    | nil => simp [framesOf, Nat.div_eq_of_lt (show size - 1 < size by omega)]
+    | cons x xs =>
+      have hne : (x :: xs).isEmpty = false := rfl
+      obtain ⟨i1, i2, i3⟩ := ih ((x :: xs).drop size) (by simp at hb ⊢; omega)
+      simp only [framesOf, hne, Bool.false_eq_true, if_false]
+      refine ⟨?_, ?_, ?_⟩
+      · simp only [List.map_cons, List.drop_one, List.tail_cons, List.flatten_cons]
+        by_cases hl : (x :: xs).length ≤ size
+        · have e : (x :: xs).take size = x :: xs := List.take_of_length_le hl
+          rw [e, padTo, List.append_assoc, List.take_append_of_le_length (Nat.le_refl _), List.take_length]
+        · have hl' : size < (x :: xs).length := by omega
+          have e : padTo size ((x :: xs).take size) = (x :: xs).take size := by
+            simp only [List.length_cons] at hl'
+            simp [padTo, List.length_take]; omega
+          have e2 : ((x :: xs).take size).length = size := by simp [List.length_take]; simp at hl'; omega
+          rw [e, List.take_append, e2, List.take_of_length_le (by rw [e2]; omega)]
+          have e3 : (x :: xs).length - size = ((x :: xs).drop size).length := by simp
+          rw [e3, i1, List.take_append_drop]
+      · intro y hy
+        simp only [List.mem_cons] at hy
+        rcases hy with rfl | hy
+        · simp [padTo_length, List.length_take]; omega
+        · exact i2 y hy
+      · simp only [List.length_cons, i3, List.length_drop]
+        have := div_step (xs.length + 1) size hs (by omega)
+        simpa using this
+
+/-! ### the specified ROM stays well-formed -/
+
+theorem leBytes_length (n v : Nat) : (leBytes n v).length = n := by
+  induction n generalizing v with
+  | zero => simp [leBytes]
+  | succ n ih => simp [leBytes, ih]
+
+theorem splice_length (mem : Bytes) (a : Nat) (d : Bytes) (h : a + d.length ≤ mem.length) :
+    (splice mem a d).length = mem.length := by
+  simp [splice, List.length_take, List.length_drop]; omega
 
 /-- the specified ROM after an operation is again well-formed, with no data phase pending -/
 theorem specOp_OK (ce : Bool) (r r' : Rom) (op : Op) (res : Except SErr Val) (st hab : Nat)
     (hr : r.OK) (hrecv : r.recv = none) (hargs : op.argsOK) (hspec : specOp ce r op = some (r', res, st, hab)) :
     r'.OK ∧ r'.recv = none := by
-  sorry
+  obtain ⟨h1, h2, h3⟩ := hr
+  cases op with
+  | read a n f =>
+    simp only [specOp] at hspec
+    split at hspec
+    · simp only [Option.some.injEq, Prod.mk.injEq] at hspec
+      obtain ⟨rfl, _⟩ := hspec
+      exact ⟨⟨h1, h2, h3⟩, hrecv⟩
+    · simp at hspec
+  | write a v c f =>
+    simp only [specOp] at hspec
+    split at hspec
+    · rename_i hc
+      simp only [Option.some.injEq, Prod.mk.injEq] at hspec
+      obtain ⟨rfl, _⟩ := hspec
+      refine ⟨⟨?_, h2, h3⟩, hrecv⟩
+      show (splice r.mem a (leBytes (f / 8) v)).length < _
+      rw [splice_length _ _ _ (by rw [leBytes_length]; exact hc.2)]; exact h1
+    · simp only [Option.some.injEq, Prod.mk.injEq] at hspec
+      obtain ⟨rfl, _⟩ := hspec
+      exact ⟨⟨h1, h2, h3⟩, hrecv⟩
+  | writeFile a d =>
+    simp only [specOp] at hspec
+    split at hspec
+    · rename_i hc
+      simp only [Option.some.injEq, Prod.mk.injEq] at hspec
+      obtain ⟨rfl, _⟩ := hspec
+      refine ⟨⟨?_, h2, h3⟩, hrecv⟩
+      show (splice r.mem a d).length < _
+      rw [splice_length _ _ _ hc]; exact h1
+    · simp only [Option.some.injEq, Prod.mk.injEq] at hspec
+      obtain ⟨rfl, _⟩ := hspec
+      exact ⟨⟨h1, h2, h3⟩, hrecv⟩
+  | sdpsWriteFile nc ps d => simp [specOp] at hspec
+  | _ =>
+    simp only [specOp, Option.some.injEq, Prod.mk.injEq] at hspec
+    obtain ⟨rfl, _⟩ := hspec
+    exact ⟨⟨h1, h2, h3⟩, hrecv⟩
+
+/-! ### answers as a list of messages -/
+
+def chunksF : Nat → Bytes → List Bytes
+  | 0, _ => []
+  | f + 1, b => if b.isEmpty then [] else b.take 64 :: chunksF f (b.drop 64)
+
+def chunks (b : Bytes) : List Bytes := chunksF b.length b
+
+theorem chunksF_fuel : ∀ (f g : Nat) (b : Bytes), b.length ≤ f → b.length ≤ g → chunksF f b = chunksF g b := by
+  intro f
+  induction f with
+  | zero =>
+    intro g b hf hg
+    have : b = [] := List.eq_nil_of_length_eq_zero (by omega)
+    subst this
+    cases g <;> simp [chunksF]
+  | succ f ih =>
+    intro g b hf hg
+    cases b with
+    | nil => cases g <;> simp [chunksF]
+    | cons x xs =>
+      cases g with
+      | zero => simp at hg
+      | succ g =>
+        simp only [chunksF, List.isEmpty_cons, Bool.false_eq_true, if_false]
+        rw [ih g _ (by simp at hf ⊢; omega) (by simp at hg ⊢ <;> omega)]
+
+theorem chunks_nil : chunks [] = [] := rfl
+
+theorem chunks_cons (b : Bytes) (hb : b ≠ []) : chunks b = b.take 64 :: chunks (b.drop 64) := by
+  cases b with
+  | nil => exact absurd rfl hb
+  | cons x xs =>
+    unfold chunks
+    simp only [List.length_cons, chunksF, List.isEmpty_cons, Bool.false_eq_true, if_false]
+    rw [chunksF_fuel xs.length ((x :: xs).drop 64).length _ (by simp <;> omega) (Nat.le_refl _)]
+
+theorem chunks_small (b : Bytes) (hb : b ≠ []) (hl : b.length ≤ 64) : chunks b = [b] := by
+  rw [chunks_cons b hb, List.take_of_length_le hl, List.drop_of_length_le hl, chunks_nil]
+
+theorem retReports_eq : ∀ (f : Nat) (b : Bytes), b.length ≤ f →
+    retReports f b = (chunks b).map (fun p => UInt8.ofNat Spec.ridRet :: padTo Spec.retSize p) := by
+  intro f
+  induction f with
+  | zero =>
+    intro b hb
+    have : b = [] := List.eq_nil_of_length_eq_zero (by omega)
+    subst this
+    simp [retReports, chunks_nil]
+  | succ f ih =>
+    intro b hb
+    cases b with
+    | nil => simp [retReports, chunks_nil]
+    | cons x xs =>
+      rw [chunks_cons _ (by simp)]
+      simp only [retReports, List.isEmpty_cons, Bool.false_eq_true, if_false, List.map_cons]
+      rw [ih _ (by simp at hb ⊢; omega)]
+
+theorem chunks_flatten' : ∀ (n : Nat) (b : Bytes), b.length ≤ n → (chunks b).flatten = b := by
+  intro n
+  induction n with
+  | zero =>
+    intro b hb
+    have : b = [] := List.eq_nil_of_length_eq_zero (by omega)
+    subst this; simp [chunks_nil]
+  | succ n ih =>
+    intro b hb
+    cases b with
+    | nil => simp [chunks_nil]
+    | cons x xs =>
+      rw [chunks_cons _ (by simp), List.flatten_cons, ih _ (by simp at hb ⊢; omega), List.take_append_drop]
+
+theorem chunks_flatten (b : Bytes) : (chunks b).flatten = b := chunks_flatten' b.length b (Nat.le_refl _)
+
+def repOf (m : Bool × Bytes) : Bytes :=
+  if m.1 then UInt8.ofNat Spec.ridHab :: m.2 else UInt8.ofNat Spec.ridRet :: padTo Spec.retSize m.2
+
+def msgs (out : Bytes) : List (Bool × Bytes) :=
+  if out.isEmpty then [] else (true, out.take 4) :: (chunks (out.drop 4)).map (fun p => (false, p))
+
+theorem toReports_eq (out : Bytes) : toReports out = (msgs out).map repOf := by
+  unfold toReports msgs
+  by_cases he : out.isEmpty = true
+  · simp [he]
+  · simp only [he, Bool.false_eq_true, if_false, List.map_cons, List.map_map]
+    rw [retReports_eq _ _ (by simp)]
+    simp [repOf, habReport, Function.comp_def]
+
+theorem msgs_flatten (out : Bytes) : ((msgs out).map Prod.snd).flatten = out := by
+  unfold msgs
+  by_cases he : out.isEmpty = true
+  · simp only [he, if_true]; simp at he; simp [he]
+  · simp only [he, Bool.false_eq_true, if_false, List.map_cons, List.map_map, List.flatten_cons]
+    have : (List.map (Prod.snd ∘ fun p => (false, p)) (chunks (out.drop 4))) = chunks (out.drop 4) := by
+      simp [Function.comp_def]
+    rw [this, chunks_flatten, List.take_append_drop]
+
+theorem msgs_nil : msgs [] = [] := rfl
+
+theorem msgs_hab (hab x : Bytes) (hl : hab.length = 4) :
+    msgs (hab ++ x) = (true, hab) :: (chunks x).map (fun p => (false, p)) := by
+  unfold msgs
+  have : (hab ++ x).isEmpty = false := by
+    cases hab with
+    | nil => simp at hl
+    | cons a t => rfl
+  simp only [this, Bool.false_eq_true, if_false]
+  rw [List.take_append_of_le_length (by omega), List.take_of_length_le (by omega),
+    List.drop_append_of_le_length (by omega), List.drop_of_length_le (by omega), List.nil_append]
+
+/-! ### the link invariant -/
+
+/-- host `h` talks to ROM `r`; `pend` = the answers of the ROM not yet read (`true`: the HAB word) -/
+def Linked (h : Host) (r : Rom) (pend : List (Bool × Bytes)) : Prop :=
+  h.opened = true ∧ 16 ≤ h.packSize ∧
+  ((h.tr = .serial ∧ h.peer = .live r ∧ h.rx = (pend.map Prod.snd).flatten ∧ h.rxR = []) ∨
+   (h.tr = .hid ∧ h.peer = .liveHid { rom := r, buf := [] } ∧ h.rx = [] ∧ h.rxR = pend.map repOf))
+
+def Same (h h' : Host) : Prop :=
+  h'.status = h.status ∧ h'.hab = h.hab ∧ h'.ce = h.ce ∧ h'.tr = h.tr ∧ h'.packSize = h.packSize
+
+theorem Same.refl (h : Host) : Same h h := ⟨rfl, rfl, rfl, rfl, rfl⟩
+theorem Same.trans {a b c : Host} (x : Same a b) (y : Same b c) : Same a c :=
+  ⟨y.1.trans x.1, y.2.1.trans x.2.1, y.2.2.1.trans x.2.2.1, y.2.2.2.1.trans x.2.2.2.1, y.2.2.2.2.trans x.2.2.2.2⟩
+
+theorem hidFrames_cmd (ps : Nat) (w : Bytes) (hw : w.length = 16) (hp : 16 ≤ ps) :
+    hidFrames Spec.ridCmd ps w = [UInt8.ofNat Spec.ridCmd :: padTo ps w] := by
+  unfold hidFrames
+  rw [hw]
+  have hne : w.isEmpty = false := by
+    cases w with
+    | nil => simp at hw
+    | cons a t => rfl
+  rw [show (16 : Nat) = 15 + 1 from rfl, framesOf]
+  simp only [hne, Bool.false_eq_true, if_false]
+  rw [List.take_of_length_le (by omega), List.drop_of_length_le (by omega), framesOf_nil]
+
+theorem sendFrame_cmd (h : Host) (r : Rom) (pend : List (Bool × Bytes)) (w : Bytes) (hl : Linked h r pend)
+    (hrecv : r.recv = none) (hw : w.length = 16) :
+    ∃ h', sendFrame Spec.ridCmd w h = (.ok (), h') ∧ Linked h' (r.step w).1 (pend ++ msgs (r.step w).2) ∧
+      Same h h' ∧ (h.tr = .serial → h'.expectStatus = true) := by
+  obtain ⟨ho, hp, hc⟩ := hl
+  rcases hc with ⟨ht, hpe, hrx, hrxr⟩ | ⟨ht, hpe, hrx, hrxr⟩
+  · refine ⟨h.write w, by simp only [sendFrame, ht], ?_, ?_, fun _ => rfl⟩
+    · refine ⟨?_, ?_, Or.inl ⟨?_, ?_, ?_, ?_⟩⟩ <;>
+        simp only [Host.write, Host.devWrite, ht, hpe, ho, hp, hrx, hrxr, List.map_append, List.flatten_append, msgs_flatten] <;> simp
+    · refine ⟨?_, ?_, ?_, ?_, ?_⟩ <;> simp only [Host.write, Host.devWrite, ht, hpe]
+  · have hps : ¬ (h.packSize = 0 ∧ ¬ w.isEmpty = true) := by omega
+    refine ⟨(hidFrames Spec.ridCmd h.packSize w).foldl (fun x f => x.devWrite f) h,
+      by simp only [sendFrame, ht, hps, if_false], ?_, ?_, fun x => by simp [ht] at x⟩
+    · rw [hidFrames_cmd _ _ hw hp]
+      have e : (padTo h.packSize w).take 16 = w := by
+        rw [padTo, List.take_append_of_le_length (by omega), List.take_of_length_le (by omega)]
+      refine ⟨?_, ?_, Or.inr ⟨?_, ?_, ?_, ?_⟩⟩ <;>
+        simp only [List.foldl_cons, List.foldl_nil, Host.devWrite, HidRom.step, ht, hpe, ho, hp, hrx, hrxr, hrecv, e,
+          toReports_eq, List.map_append] <;> simp
+    · rw [hidFrames_cmd _ _ hw hp]
+      refine ⟨?_, ?_, ?_, ?_, ?_⟩ <;> simp only [List.foldl_cons, List.foldl_nil, Host.devWrite, ht, hpe]
+
+
+theorem take_padTo_take (ps m : Nat) (b : Bytes) (hb : b.length = m) :
+    (padTo ps (b.take ps)).take m = b.take ps := by
+  by_cases hl : b.length ≤ ps
+  · rw [List.take_of_length_le hl, padTo, List.take_append_of_le_length (by omega), List.take_of_length_le (by omega)]
+  · have e : padTo ps (b.take ps) = b.take ps := by
+      simp [padTo, List.length_take]; omega
+    rw [e, List.take_of_length_le (by simp [List.length_take]; omega)]
+
+theorem HidRom_step_data (r : Rom) (buf payload : Bytes) (tag a n : Nat) (hrecv : r.recv = some (tag, a, n)) :
+    HidRom.step ⟨r, buf⟩ (UInt8.ofNat Spec.ridData :: payload) =
+      if (buf ++ payload.take (n - buf.length)).length = n then
+        (⟨(r.step (buf ++ payload.take (n - buf.length))).1, []⟩, toReports (r.step (buf ++ payload.take (n - buf.length))).2)
+      else (⟨r, buf ++ payload.take (n - buf.length)⟩, []) := by
+  have e : (UInt8.ofNat Spec.ridData).toNat = Spec.ridData := by decide
+  simp only [HidRom.step, hrecv, e, if_true]
+
+theorem hid_data_fold (r : Rom) (tag a n ps : Nat) (hps : 0 < ps) (hrecv : r.recv = some (tag, a, n)) :
+    ∀ (f : Nat) (b buf : Bytes) (h h' : Host), h.tr = .hid → h.peer = .liveHid ⟨r, buf⟩ → buf.length + b.length = n →
+      b ≠ [] → b.length ≤ f → h' = (framesOf Spec.ridData ps f b).foldl (fun x f => x.devWrite f) h →
+      h' = { h with txRev := h'.txRev, relRev := h'.relRev, peer := .liveHid ⟨(r.step (buf ++ b)).1, []⟩,
+                    rxR := h.rxR ++ toReports (r.step (buf ++ b)).2 } := by
+  intro f
+  induction f with
+  | zero =>
+    intro b buf h h' _ _ _ hne hl
+    exact absurd (List.eq_nil_of_length_eq_zero (by omega)) hne
+  | succ f ih =>
+    intro b buf h h' ht hpe hn hne hl hh'
+    have hemp : b.isEmpty = false := by
+      cases b with
+      | nil => exact absurd rfl hne
+      | cons x xs => rfl
+    rw [framesOf] at hh'
+    simp only [hemp, Bool.false_eq_true, if_false, List.foldl_cons] at hh'
+    have hpay : (padTo ps (b.take ps)).take (n - buf.length) = b.take ps :=
+      take_padTo_take ps _ b (by omega)
+    by_cases hb : b.length ≤ ps
+    · have e1 : b.take ps = b := List.take_of_length_le hb
+      have e2 : b.drop ps = [] := List.drop_of_length_le hb
+      rw [e2, framesOf_nil, List.foldl_nil] at hh'
+      have : (buf ++ b).length = n := by simp; omega
+      simp only [Host.devWrite, ht, hpe, HidRom_step_data r buf _ tag a n hrecv, hpay] at hh'
+      rw [e1] at hh'
+      simp only [this, if_true] at hh'
+      subst hh'
+      simp only [ht]
+    · have hlen : (buf ++ b.take ps).length ≠ n := by simp [List.length_take]; omega
+      obtain ⟨h1, hh1⟩ : ∃ h1 : Host, h1 = { h with
+          txRev := (UInt8.ofNat Spec.ridData :: padTo ps (b.take ps)) :: h.txRev, relRev := [] :: h.relRev,
+          peer := .liveHid ⟨r, buf ++ b.take ps⟩ } := ⟨_, rfl⟩
+      have e1 : h.devWrite (UInt8.ofNat Spec.ridData :: padTo ps (b.take ps)) = h1 := by
+        rw [hh1]
+        simp only [Host.devWrite, ht, hpe, HidRom_step_data r buf _ tag a n hrecv, hpay, hlen, if_false, List.append_nil]
+      rw [e1] at hh'
+      have := ih (b.drop ps) (buf ++ b.take ps) h1 h' (by rw [hh1]; exact ht) (by rw [hh1]) (by simp [List.length_take]; omega)
+        (by intro hc; have := congrArg List.length hc; simp at this; omega) (by simp; omega) hh'
+      rw [List.append_assoc, List.take_append_drop] at this
+      rw [this, hh1]
+
+
+theorem sendFrame_serial (h : Host) (r : Rom) (pend : List (Bool × Bytes)) (rid : Nat) (w : Bytes) (hl : Linked h r pend)
+    (ht : h.tr = .serial) :
+    ∃ h', sendFrame rid w h = (.ok (), h') ∧ Linked h' (r.step w).1 (pend ++ msgs (r.step w).2) ∧
+      Same h h' ∧ (h.tr = .serial → h'.expectStatus = true) := by
+  obtain ⟨ho, hp, hc⟩ := hl
+  rcases hc with ⟨_, hpe, hrx, hrxr⟩ | ⟨ht', _⟩
+  · refine ⟨h.write w, by simp only [sendFrame, ht], ?_, ?_, fun _ => rfl⟩
+    · refine ⟨?_, ?_, Or.inl ⟨?_, ?_, ?_, ?_⟩⟩ <;>
+        simp only [Host.write, Host.devWrite, ht, hpe, ho, hp, hrx, hrxr, List.map_append, List.flatten_append, msgs_flatten] <;> simp
+    · refine ⟨?_, ?_, ?_, ?_, ?_⟩ <;> simp only [Host.write, Host.devWrite, ht, hpe]
+  · rw [ht] at ht'; cases ht'
+
+theorem sendFrame_data (h : Host) (r : Rom) (pend : List (Bool × Bytes)) (w : Bytes) (tag a : Nat) (hl : Linked h r pend)
+    (hrecv : r.recv = some (tag, a, w.length)) (hw : w ≠ []) :
+    ∃ h', sendFrame Spec.ridData w h = (.ok (), h') ∧ Linked h' (r.step w).1 (pend ++ msgs (r.step w).2) ∧
+      Same h h' ∧ (h.tr = .serial → h'.expectStatus = true) := by
+  cases ht : h.tr with
+  | serial => simpa [ht] using sendFrame_serial h r pend Spec.ridData w hl ht
+  | hid =>
+    obtain ⟨ho, hp, hc⟩ := hl
+    rcases hc with ⟨ht', _⟩ | ⟨_, hpe, hrx, hrxr⟩
+    · rw [ht] at ht'; cases ht'
+    · have hps : ¬ (h.packSize = 0 ∧ ¬ w.isEmpty = true) := by omega
+      refine ⟨(hidFrames Spec.ridData h.packSize w).foldl (fun x f => x.devWrite f) h,
+        by simp only [sendFrame, ht, hps, if_false], ?_, ?_, fun x => by simp at x⟩
+      · have := hid_data_fold r tag a w.length h.packSize (by omega) hrecv w.length w [] h _ ht hpe (by simp) hw
+          (Nat.le_refl _) rfl
+        rw [List.nil_append] at this
+        unfold hidFrames
+        rw [this]
+        exact ⟨ho, hp, Or.inr ⟨ht, rfl, hrx, by simp [hrxr, toReports_eq]⟩⟩
+      · have := hid_data_fold r tag a w.length h.packSize (by omega) hrecv w.length w [] h _ ht hpe (by simp) hw
+          (Nat.le_refl _) rfl
+        unfold hidFrames
+        rw [this]
+        exact ⟨rfl, rfl, rfl, rfl, rfl⟩
+
+theorem parseCmd_nil : parseCmd [] = none := rfl
+
+theorem sendFrame_empty (h : Host) (r : Rom) (pend : List (Bool × Bytes)) (hl : Linked h r pend) (hrecv : r.recv = none) :
+    ∃ h', sendFrame Spec.ridData [] h = (.ok (), h') ∧ Linked h' r pend ∧ Same h h' := by
+  cases ht : h.tr with
+  | serial =>
+    obtain ⟨h', e1, e2, e3, _⟩ := sendFrame_serial h r pend Spec.ridData [] hl ht
+    have : r.step [] = (r, []) := by simp [Rom.step, hrecv, parseCmd_nil]
+    rw [this] at e2
+    simp only [msgs_nil, List.append_nil] at e2
+    exact ⟨h', e1, e2, e3⟩
+  | hid =>
+    refine ⟨h, ?_, hl, Same.refl h⟩
+    simp [sendFrame, ht, hidFrames, framesOf]
+
+theorem protoRead_linked (h : Host) (r : Rom) (k : Bool) (p : Bytes) (rest : List (Bool × Bytes)) (m : Nat)
+    (hl : Linked h r ((k, p) :: rest)) (hm : p.length = if m = 0 then 4 else m) :
+    ∃ flag z h', protoRead m h = (.ok (flag, p ++ List.replicate z 0), h') ∧ Linked h' r rest ∧ Same h h' ∧
+      h'.expectStatus = h.expectStatus ∧ (h.tr = .serial → flag = h.expectStatus) ∧ (h.tr = .hid → flag = k) ∧
+      ((h.tr = .serial ∨ k = true ∨ 64 ≤ p.length) → z = 0) := by
+  obtain ⟨ho, hp, hc⟩ := hl
+  rcases hc with ⟨ht, hpe, hrx, hrxr⟩ | ⟨ht, hpe, hrx, hrxr⟩
+  · have hn : 0 < p.length := by rw [hm]; split <;> omega
+    have hne : h.rx.isEmpty = false := by
+      rw [hrx]
+      cases p with
+      | nil => simp at hn
+      | cons x xs => rfl
+    have hle : (if m = 0 then 4 else m) ≤ h.rx.length := by rw [← hm, hrx]; simp
+    refine ⟨h.expectStatus, 0, { h with rx := h.rx.drop (if m = 0 then 4 else m) }, ?_, ?_, ⟨rfl, rfl, rfl, rfl, rfl⟩, rfl,
+      ?_, ?_, ?_⟩
+    · simp only [protoRead, ht, hle, hne, Bool.false_eq_true, not_false_eq_true, and_self, if_true]
+      rw [hrx, ← hm]
+      simp
+    · refine ⟨ho, hp, Or.inl ⟨ht, hpe, ?_, hrxr⟩⟩
+      show h.rx.drop _ = _
+      rw [hrx, ← hm]; simp
+    · intro _; rfl
+    · intro x; rw [ht] at x; cases x
+    · intro _; rfl
+  · refine ⟨k, if k then 0 else 64 - p.length, { h with rxR := rest.map repOf }, ?_, ?_, ⟨rfl, rfl, rfl, rfl, rfl⟩, rfl,
+      ?_, ?_, ?_⟩
+    · simp only [protoRead, ht, hrxr, List.map_cons, repOf]
+      cases k
+      · have : ¬ (UInt8.ofNat Spec.ridRet).toNat = Spec.ridHab := by decide
+        simp [padTo]
+        decide
+      · have : (UInt8.ofNat Spec.ridHab).toNat = Spec.ridHab := by decide
+        simp [this]
+    · exact ⟨ho, hp, Or.inr ⟨ht, hpe, hrx, rfl⟩⟩
+    · intro x; rw [ht] at x; cases x
+    · intro _; rfl
+    · rintro (x | x | x)
+      · rw [ht] at x; cases x
+      · simp [x]
+      · split <;> omega
+theorem rom_read (r : Rom) (a n f : Nat) (hrecv : r.recv = none) (ha : a < 4294967296) (hn : n < 4294967296)
+    (hf : f < 256) (hle : a + n ≤ r.mem.length) :
+    r.step (Cmd.encode ⟨Spec.cReadRegister, a, f, n, 0⟩) =
+      ({ r with ncmd := r.ncmd + 1 }, r.hab ++ (r.mem.drop a).take n) := by
+  have hfit : (⟨Spec.cReadRegister, a, f, n, 0⟩ : Cmd).fits := ⟨by simp [Spec.cReadRegister], ha, hf, hn, by simp⟩
+  simp only [Rom.step, hrecv, cmd_roundtrip' _ hfit, if_true, hle]
+
+theorem rom_write_ok (r : Rom) (a v c f : Nat) (hrecv : r.recv = none) (hforced : r.forced = []) (ha : a < 4294967296)
+    (hv : v < 4294967296) (hc : c < 4294967296) (hf : f < 256)
+    (hok : (f = 8 ∨ f = 16 ∨ f = 32) ∧ a + f / 8 ≤ r.mem.length) :
+    r.step (Cmd.encode ⟨Spec.cWriteRegister, a, f, c, v⟩) =
+      ({ r with ncmd := r.ncmd + 1, mem := splice r.mem a (leBytes (f / 8) v) }, r.hab ++ be 4 Spec.rWriteDataOk) := by
+  have hfit : (⟨Spec.cWriteRegister, a, f, c, v⟩ : Cmd).fits := ⟨by simp [Spec.cWriteRegister], ha, hf, hc, hv⟩
+  simp [Rom.step, hrecv, cmd_roundtrip' _ hfit, Spec.cReadRegister, Spec.cWriteRegister, Spec.cWriteFile, Spec.cErrorStatus, Spec.cWriteCsf, Spec.cWriteDcd, Spec.cJumpAddress, Spec.cSkipDcdHeader, hforced, hok]
+
+theorem rom_write_bad (r : Rom) (a v c f : Nat) (hrecv : r.recv = none) (hforced : r.forced = []) (ha : a < 4294967296)
+    (hv : v < 4294967296) (hc : c < 4294967296) (hf : f < 256)
+    (hok : ¬ ((f = 8 ∨ f = 16 ∨ f = 32) ∧ a + f / 8 ≤ r.mem.length)) :
+    r.step (Cmd.encode ⟨Spec.cWriteRegister, a, f, c, v⟩) =
+      ({ r with ncmd := r.ncmd + 1 }, r.hab ++ be 4 0) := by
+  have hfit : (⟨Spec.cWriteRegister, a, f, c, v⟩ : Cmd).fits := ⟨by simp [Spec.cWriteRegister], ha, hf, hc, hv⟩
+  simp [Rom.step, hrecv, cmd_roundtrip' _ hfit, Spec.cReadRegister, Spec.cWriteRegister, Spec.cWriteFile, Spec.cErrorStatus, Spec.cWriteCsf, Spec.cWriteDcd, Spec.cJumpAddress, Spec.cSkipDcdHeader, hforced, hok]
+
+theorem rom_skip (r : Rom) (hrecv : r.recv = none) (hforced : r.forced = []) :
+    r.step (Cmd.encode ⟨Spec.cSkipDcdHeader, 0, 0, 0, 0⟩) =
+      ({ r with ncmd := r.ncmd + 1 }, r.hab ++ be 4 Spec.rSkipDcdHeaderOk) := by
+  have hfit : (⟨Spec.cSkipDcdHeader, 0, 0, 0, 0⟩ : Cmd).fits := by decide
+  simp [Rom.step, hrecv, cmd_roundtrip' _ hfit, Spec.cReadRegister, Spec.cWriteRegister, Spec.cWriteFile, Spec.cErrorStatus, Spec.cWriteCsf, Spec.cWriteDcd, Spec.cJumpAddress, Spec.cSkipDcdHeader, hforced]
+
+theorem rom_status (r : Rom) (hrecv : r.recv = none) (hforced : r.forced = []) :
+    r.step (Cmd.encode ⟨Spec.cErrorStatus, 0, 0, 0, 0⟩) =
+      ({ r with ncmd := r.ncmd + 1 }, r.hab ++ be 4 r.errStatus) := by
+  have hfit : (⟨Spec.cErrorStatus, 0, 0, 0, 0⟩ : Cmd).fits := by decide
+  simp [Rom.step, hrecv, cmd_roundtrip' _ hfit, Spec.cReadRegister, Spec.cWriteRegister, Spec.cWriteFile, Spec.cErrorStatus, Spec.cWriteCsf, Spec.cWriteDcd, Spec.cJumpAddress, Spec.cSkipDcdHeader, hforced]
+
+theorem rom_jump (r : Rom) (a : Nat) (hrecv : r.recv = none) (ha : a < 4294967296) :
+    r.step (Cmd.encode ⟨Spec.cJumpAddress, a, 0, 0, 0⟩) =
+      ({ r with ncmd := r.ncmd + 1, jumped := some a }, r.hab ++ []) := by
+  have hfit : (⟨Spec.cJumpAddress, a, 0, 0, 0⟩ : Cmd).fits := ⟨by simp [Spec.cJumpAddress], ha, by simp, by simp, by simp⟩
+  simp [Rom.step, hrecv, cmd_roundtrip' _ hfit, Spec.cReadRegister, Spec.cWriteRegister, Spec.cWriteFile, Spec.cErrorStatus, Spec.cWriteCsf, Spec.cWriteDcd, Spec.cJumpAddress, Spec.cSkipDcdHeader]
+
+
+/-- command with data phase: the command (answered at once if there is no data), then the data -/
+def DataPhase (r : Rom) (c : Cmd) (d : Bytes) (r2 : Rom) (sv : Nat) : Prop :=
+  (d = [] ∧ r2.recv = none ∧ r.step c.encode = (r2, r.hab ++ be 4 sv)) ∨
+  (d ≠ [] ∧ ∃ r1 tag a, r.step c.encode = (r1, []) ∧ r1.recv = some (tag, a, d.length) ∧
+    r1.step d = (r2, r.hab ++ be 4 sv))
+
+theorem splice_nil (mem : Bytes) (a : Nat) : splice mem a [] = mem := by
+  simp [splice]
+
+theorem rom_file (r : Rom) (a : Nat) (d : Bytes) (hrecv : r.recv = none) (hforced : r.forced = [])
+    (ha : a < 4294967296) (hd : d.length < 4294967296) :
+    DataPhase r ⟨Spec.cWriteFile, a, 0, d.length, 0⟩ d
+      (if a + d.length ≤ r.mem.length then { r with ncmd := r.ncmd + 1, mem := splice r.mem a d } else { r with ncmd := r.ncmd + 1 })
+      (if a + d.length ≤ r.mem.length then Spec.rWriteFileOk else 0) := by
+  have hfit : (⟨Spec.cWriteFile, a, 0, d.length, 0⟩ : Cmd).fits := ⟨by simp [Spec.cWriteFile], ha, by simp, hd, by simp⟩
+  obtain ⟨mem, locked, es, recv, ncmd, forced, jumped⟩ := r
+  simp only at hrecv hforced
+  subst hrecv; subst hforced
+  by_cases hd0 : d = []
+  · subst hd0
+    refine Or.inl ⟨rfl, by split <;> rfl, ?_⟩
+    simp only [List.length_nil] at hfit ⊢
+    by_cases hle : a ≤ mem.length
+    · have : ¬ mem.length < a := by omega
+      simp [Rom.step, cmd_roundtrip' _ hfit, Spec.cReadRegister, Spec.cWriteRegister, Spec.cWriteFile, hle, this, splice_nil,
+        okValue, Rom.hab]
+    · have : mem.length < a := by omega
+      simp [Rom.step, cmd_roundtrip' _ hfit, Spec.cReadRegister, Spec.cWriteRegister, Spec.cWriteFile, hle, this, Rom.hab]
+  · have hn : d.length ≠ 0 := fun h => hd0 (List.eq_nil_of_length_eq_zero h)
+    refine Or.inr ⟨hd0, Rom.mk mem locked es (some (Spec.cWriteFile, a, d.length)) (ncmd + 1) [] jumped, Spec.cWriteFile, a, ?_, rfl, ?_⟩
+    · simp [Rom.step, cmd_roundtrip' _ hfit, Spec.cReadRegister, Spec.cWriteRegister, Spec.cWriteFile, hn]
+    · by_cases hle : a + d.length ≤ mem.length
+      · simp [Rom.step, hle, Rom.hab]
+      · simp [Rom.step, hle, Rom.hab]
+
+theorem rom_dcd (r : Rom) (a : Nat) (d : Bytes) (hrecv : r.recv = none) (hforced : r.forced = [])
+    (ha : a < 4294967296) (hd : d.length < 4294967296) :
+    DataPhase r ⟨Spec.cWriteDcd, a, 0, d.length, 0⟩ d { r with ncmd := r.ncmd + 1 } Spec.rWriteDataOk := by
+  have hfit : (⟨Spec.cWriteDcd, a, 0, d.length, 0⟩ : Cmd).fits := ⟨by simp [Spec.cWriteDcd], ha, by simp, hd, by simp⟩
+  obtain ⟨mem, locked, es, recv, ncmd, forced, jumped⟩ := r
+  simp only at hrecv hforced
+  subst hrecv; subst hforced
+  by_cases hd0 : d = []
+  · subst hd0
+    refine Or.inl ⟨rfl, rfl, ?_⟩
+    simp only [List.length_nil] at hfit ⊢
+    simp [Rom.step, cmd_roundtrip' _ hfit, Spec.cReadRegister, Spec.cWriteRegister, Spec.cWriteFile, Spec.cWriteDcd,
+        okValue, Rom.hab]
+  · have hn : d.length ≠ 0 := fun h => hd0 (List.eq_nil_of_length_eq_zero h)
+    refine Or.inr ⟨hd0, Rom.mk mem locked es (some (Spec.cWriteDcd, a, d.length)) (ncmd + 1) [] jumped, Spec.cWriteDcd, a, ?_, rfl, ?_⟩
+    · simp [Rom.step, cmd_roundtrip' _ hfit, Spec.cReadRegister, Spec.cWriteRegister, Spec.cWriteFile, Spec.cWriteDcd, hn]
+    · simp [Rom.step, Rom.hab, okValue, Spec.cWriteFile, Spec.cWriteDcd]
+
+theorem rom_csf (r : Rom) (a : Nat) (d : Bytes) (hrecv : r.recv = none) (hforced : r.forced = [])
+    (ha : a < 4294967296) (hd : d.length < 4294967296) :
+    DataPhase r ⟨Spec.cWriteCsf, a, 0, d.length, 0⟩ d { r with ncmd := r.ncmd + 1 } Spec.rWriteDataOk := by
+  have hfit : (⟨Spec.cWriteCsf, a, 0, d.length, 0⟩ : Cmd).fits := ⟨by simp [Spec.cWriteCsf], ha, by simp, hd, by simp⟩
+  obtain ⟨mem, locked, es, recv, ncmd, forced, jumped⟩ := r
+  simp only at hrecv hforced
+  subst hrecv; subst hforced
+  by_cases hd0 : d = []
+  · subst hd0
+    refine Or.inl ⟨rfl, rfl, ?_⟩
+    simp only [List.length_nil] at hfit ⊢
+    simp [Rom.step, cmd_roundtrip' _ hfit, Spec.cReadRegister, Spec.cWriteRegister, Spec.cWriteFile, Spec.cWriteDcd,
+        Spec.cWriteCsf, okValue, Rom.hab]
+  · have hn : d.length ≠ 0 := fun h => hd0 (List.eq_nil_of_length_eq_zero h)
+    refine Or.inr ⟨hd0, Rom.mk mem locked es (some (Spec.cWriteCsf, a, d.length)) (ncmd + 1) [] jumped, Spec.cWriteCsf, a, ?_, rfl, ?_⟩
+    · simp [Rom.step, cmd_roundtrip' _ hfit, Spec.cReadRegister, Spec.cWriteRegister, Spec.cWriteFile, Spec.cWriteDcd,
+        Spec.cWriteCsf, hn]
+    · simp [Rom.step, Rom.hab, okValue, Spec.cWriteFile, Spec.cWriteCsf]
+
+
+/-! ### host primitives over the link -/
+
+theorem respValue_be (v : Nat) (z : Bytes) (hv : v < 4294967296) : respValue (be 4 v ++ z) = .ok v := by
+  unfold respValue
+  have : ¬ (be 4 v ++ z).length < 4 := by simp
+  rw [if_neg this, take_be, fromBe_be 4 v (by omega)]
+
+theorem habWord_lt (r : Rom) : habWord r < 4294967296 := by
+  unfold habWord; split <;> decide
+
+theorem hab_eq (r : Rom) : r.hab = be 4 (habWord r) := rfl
+
+theorem Linked.upd {h h' : Host} {r : Rom} {p : List (Bool × Bytes)} (hl : Linked h r p)
+    (h1 : h'.opened = h.opened) (h2 : h'.packSize = h.packSize) (h3 : h'.tr = h.tr) (h4 : h'.peer = h.peer)
+    (h5 : h'.rx = h.rx) (h6 : h'.rxR = h.rxR) : Linked h' r p := by
+  unfold Linked at hl ⊢
+  rw [h1, h2, h3, h4, h5, h6]; exact hl
+
+theorem writeCommand_fits (c : Cmd) (hf : c.fits) : writeCommand c = sendFrame Spec.ridCmd c.encode := by
+  simp [writeCommand, hf]
+
+theorem processCmd_linked (h : Host) (r : Rom) (c : Cmd) (x : Bytes) (hl : Linked h r []) (hrecv : r.recv = none)
+    (hf : c.fits) (hout : (r.step c.encode).2 = r.hab ++ x) :
+    ∃ h', processCmd c h = (.ok true, h') ∧ Linked h' (r.step c.encode).1 ((chunks x).map (fun p => (false, p))) ∧
+      h'.status = (if r.locked then Spec.stHabIsLocked else Spec.stSuccess) ∧ h'.hab = habWord r ∧ h'.ce = h.ce ∧
+      h'.tr = h.tr ∧ h'.packSize = h.packSize := by
+  have ho : h.opened = true := hl.1
+  obtain ⟨h1, e1, l1, s1, x1⟩ := sendFrame_cmd { h with status := Spec.stSuccess } r [] c.encode
+    (hl.upd rfl rfl rfl rfl rfl rfl) hrecv (encode_length c)
+  rw [hout, List.nil_append, msgs_hab _ _ (by simp [Rom.hab])] at l1
+  obtain ⟨flag, z, h2, e2, l2, s2, _, f1, f2, hz⟩ := protoRead_linked h1 _ true r.hab _ 0 l1 (by simp [Rom.hab])
+  have hz0 : z = 0 := hz (Or.inr (Or.inl rfl))
+  have hflag : flag = true := by
+    cases ht : h1.tr with
+    | serial => rw [f1 ht]; exact x1 (s1.2.2.2.1 ▸ ht)
+    | hid => exact f2 ht
+  subst hz0; subst hflag
+  have hv : respValue (r.hab ++ List.replicate 0 0) = .ok (habWord r) := by
+    rw [hab_eq]; exact respValue_be _ _ (habWord_lt r)
+  refine ⟨{ h2 with hab := habWord r, status := if habWord r ≠ Spec.rUnlocked then Spec.stHabIsLocked else h2.status }, ?_,
+    l2.upd rfl rfl rfl rfl rfl rfl, ?_, rfl, ?_, ?_, ?_⟩
+  · unfold processCmd
+    simp only [bind_run, get_run]
+    rw [if_neg (by simp [ho])]
+    simp only [bind_run, modify_run, guardConn_run, writeCommand_fits c hf, e1, e2, hv]
+    rfl
+  · show (if habWord r ≠ Spec.rUnlocked then Spec.stHabIsLocked else h2.status) = _
+    rw [s2.1, s1.1]
+    unfold habWord
+    cases r.locked <;> simp [Spec.rLocked, Spec.rUnlocked]
+  · exact s2.2.2.1.trans s1.2.2.1
+  · exact s2.2.2.2.1.trans s1.2.2.2.1
+  · exact s2.2.2.2.2.trans s1.2.2.2.2
+
+theorem readStatus_linked (h : Host) (r : Rom) (k : Bool) (v : Nat) (rest : List (Bool × Bytes))
+    (hl : Linked h r ((k, be 4 v) :: rest)) (hv : v < 4294967296) :
+    ∃ h', readStatus h = (.ok v, h') ∧ Linked h' r rest ∧ Same h h' := by
+  obtain ⟨flag, z, h2, e2, l2, s2, _, _, _, _⟩ := protoRead_linked h r k (be 4 v) rest 0 hl (by simp)
+  refine ⟨h2, ?_, l2, s2⟩
+  unfold readStatus
+  simp only [guardConn_run, bind_run, e2, respValue_be v _ hv]
+  rfl
+
+theorem readDataLoop_done (n f : Nat) (acc : Bytes) (h : Host) (hn : n ≤ acc.length) :
+    readDataLoop n (f + 1) acc h = (.ok (acc.take n), h) := by
+  rw [readDataLoop, if_neg (by omega)]; rfl
+
+theorem readDataLoop_linked (r : Rom) (n : Nat) : ∀ (f : Nat) (rest acc : Bytes) (h : Host),
+    Linked h r ((chunks rest).map (fun p => (false, p))) → acc.length + rest.length = n → rest.length < f →
+    ∃ h', readDataLoop n f acc h = (.ok (acc ++ rest), h') ∧ Linked h' r [] ∧ Same h h' := by
+  intro f
+  induction f with
+  | zero => intro rest acc h _ _ hf; omega
+  | succ f ih =>
+    intro rest acc h hl hn hf
+    by_cases hr : rest = []
+    · subst hr
+      rw [chunks_nil] at hl
+      refine ⟨h, ?_, hl, Same.refl h⟩
+      rw [readDataLoop_done n f acc h (by simp at hn; omega)]
+      simp at hn ⊢
+      rw [List.take_of_length_le (by omega)]
+    · have hpos : 0 < rest.length := List.length_pos_iff.mpr hr
+      rw [chunks_cons rest hr, List.map_cons] at hl
+      have hl0 : Linked { h with expectStatus := false } r
+          ((false, rest.take 64) :: (chunks (rest.drop 64)).map (fun p => (false, p))) :=
+        hl.upd rfl rfl rfl rfl rfl rfl
+      have hm : (rest.take 64).length = if min (n - acc.length) Spec.maxRead = 0 then 4 else min (n - acc.length) Spec.maxRead := by
+        have : n - acc.length = rest.length := by omega
+        rw [this, List.length_take, if_neg (by simp [Spec.maxRead]; omega), Nat.min_comm]
+      obtain ⟨flag, z, h2, e2, l2, s2, _, f1, f2, hz⟩ := protoRead_linked _ r false (rest.take 64) _ _ hl0 hm
+      have hflag : flag = false := by
+        cases ht : h.tr with
+        | serial => exact f1 ht
+        | hid => exact f2 ht
+      subst hflag
+      rw [readDataLoop, if_pos (by omega)]
+      simp only [bind_run, modify_run, guardConn_run, e2]
+      simp only [Bool.false_eq_true, not_false_eq_true, if_true]
+      by_cases h64 : 64 ≤ rest.length
+      · have hz0 : z = 0 := hz (Or.inr (Or.inr (by simp [List.length_take]; omega)))
+        subst hz0
+        obtain ⟨h3, e3, l3, s3⟩ := ih (rest.drop 64) (acc ++ rest.take 64) h2 l2
+          (by simp [List.length_take]; omega) (by simp; omega)
+        refine ⟨h3, ?_, l3, Same.trans (Same.trans ?_ s2) s3⟩
+        · simp only [List.replicate_zero, List.append_nil]
+          rw [e3, List.append_assoc, List.take_append_drop]
+        · exact ⟨rfl, rfl, rfl, rfl, rfl⟩
+      · have e1 : rest.take 64 = rest := List.take_of_length_le (by omega)
+        have e4 : rest.drop 64 = [] := List.drop_of_length_le (by omega)
+        rw [e4, chunks_nil] at l2
+        have hf' : ∃ f', f = f' + 1 := ⟨f - 1, by omega⟩
+        obtain ⟨f', rfl⟩ := hf'
+        refine ⟨h2, ?_, l2, Same.trans ?_ s2⟩
+        · rw [readDataLoop_done n f' _ h2 (by simp [e1]; omega), e1, ← List.append_assoc,
+            List.take_append_of_le_length (by simp; omega), List.take_of_length_le (by simp; omega)]
+        · exact ⟨rfl, rfl, rfl, rfl, rfl⟩
+
+theorem readData_linked (r : Rom) (n : Nat) (d : Bytes) (h : Host)
+    (hl : Linked h r ((chunks d).map (fun p => (false, p)))) (hn : d.length = n) :
+    ∃ h', readData n h = (.ok d, h') ∧ Linked h' r [] ∧ Same h h' := by
+  obtain ⟨h', e, l, s⟩ := readDataLoop_linked r n (n + h.rxR.length + h.fuelHint + 1) d [] h hl (by simp [hn]) (by omega)
+  exact ⟨h', by simpa [readData] using e, l, s⟩
+
+theorem bind_fun_run {α β} (g : Host → Except SErr α × Host) (f : α → S β) (s : Host) :
+    (@bind S _ α β g f) s = match g s with
+      | (.ok a, s') => f a s'
+      | (.error e, s') => (.error e, s') := rfl
+
+theorem sendData_linked (h : Host) (r r2 : Rom) (c : Cmd) (d : Bytes) (sv : Nat) (hl : Linked h r []) (hrecv : r.recv = none)
+    (hf : c.fits) (hdp : DataPhase r c d r2 sv) (hsv : sv < 4294967296)
+    (hnf : c.tag ≠ Spec.cWriteFile → sv = Spec.rWriteDataOk) :
+    ∃ res h', sendData c d h = (res, h') ∧ Linked h' r2 [] ∧
+      h'.hab = (if r.locked then Spec.stHabIsLocked else Spec.rUnlocked) ∧ h'.ce = h.ce ∧ h'.tr = h.tr ∧
+      h'.packSize = h.packSize ∧
+      ((c.tag = Spec.cWriteFile → sv = Spec.rWriteFileOk) → res = .ok true ∧ h'.status = Spec.stSuccess) ∧
+      (c.tag = Spec.cWriteFile → sv ≠ Spec.rWriteFileOk →
+        res = (if h.ce then .error (.cmd Spec.stWriteImageFailure) else .ok false) ∧ h'.status = Spec.stWriteImageFailure) := by
+  have ho : h.opened = true := hl.1
+  have hl0 : Linked { h with status := Spec.stSuccess } r [] := hl.upd rfl rfl rfl rfl rfl rfl
+  -- command and data: afterwards the ROM is `r2` and both words are pending
+  have hw : ∃ h1 h2, writeCommand c { h with status := Spec.stSuccess } = (.ok (), h1) ∧
+      sendFrame Spec.ridData d h1 = (.ok (), h2) ∧
+      Linked h2 r2 [(true, r.hab), (false, be 4 sv)] ∧ Same { h with status := Spec.stSuccess } h2 := by
+    have hm : msgs (r.hab ++ be 4 sv) = [(true, r.hab), (false, be 4 sv)] := by
+      rw [msgs_hab _ _ (by simp [Rom.hab]), chunks_small _ (by simp [be]) (by simp)]; rfl
+    rw [writeCommand_fits c hf]
+    rcases hdp with ⟨hd, hr2, hst⟩ | ⟨hd, r1, tag, a, hst, hr1, hst2⟩
+    · subst hd
+      obtain ⟨h1, e1, l1, s1, _⟩ := sendFrame_cmd _ r [] c.encode hl0 hrecv (encode_length c)
+      rw [hst] at l1
+      simp only [List.nil_append, hm] at l1
+      obtain ⟨h2, e2, l2, s2⟩ := sendFrame_empty h1 r2 _ l1 hr2
+      exact ⟨h1, h2, e1, e2, l2, s1.trans s2⟩
+    · obtain ⟨h1, e1, l1, s1, _⟩ := sendFrame_cmd _ r [] c.encode hl0 hrecv (encode_length c)
+      rw [hst] at l1
+      simp only [List.nil_append, msgs_nil] at l1
+      obtain ⟨h2, e2, l2, s2, _⟩ := sendFrame_data h1 r1 [] d tag a l1 hr1 hd
+      rw [hst2] at l2
+      simp only [List.nil_append, hm] at l2
+      exact ⟨h1, h2, e1, e2, l2, s1.trans s2⟩
+  obtain ⟨h1, h2, e1, e2, l2, s2⟩ := hw
+  obtain ⟨fl3, z3, h3, e3, l3, s3, _, _, _, hz3⟩ := protoRead_linked h2 r2 true r.hab _ 0 l2 (by simp [Rom.hab])
+  have hv3 : respValue (r.hab ++ List.replicate z3 0) = .ok (habWord r) := by
+    rw [hab_eq]; exact respValue_be _ _ (habWord_lt r)
+  obtain ⟨h3', hh3'⟩ : ∃ h3' : Host, h3' = { h3 with hab := if habWord r ≠ Spec.rUnlocked then Spec.stHabIsLocked else habWord r } := ⟨_, rfl⟩
+  have l3' : Linked h3' r2 [(false, be 4 sv)] := by rw [hh3']; exact l3.upd rfl rfl rfl rfl rfl rfl
+  obtain ⟨fl4, z4, h4, e4, l4, s4, _, _, _, hz4⟩ := protoRead_linked h3' r2 false (be 4 sv) _ 0 l3' (by simp)
+  have hv4 : respValue (be 4 sv ++ List.replicate z4 0) = .ok sv := respValue_be _ _ hsv
+  unfold sendData
+  simp only [bind_run, get_run]
+  rw [if_neg (by simp [ho])]
+  simp only [bind_run, bind_fun_run, modify_run, guardConn_run, e1, e2, e3, hv3, ← hh3', e4, hv4]
+  have c4 : h4.ce = h.ce := by rw [s4.2.2.1, hh3']; exact s3.2.2.1.trans s2.2.2.1
+  have t4 : h4.tr = h.tr := by rw [s4.2.2.2.1, hh3']; exact s3.2.2.2.1.trans s2.2.2.2.1
+  have p4 : h4.packSize = h.packSize := by rw [s4.2.2.2.2, hh3']; exact s3.2.2.2.2.trans s2.2.2.2.2
+  have st4 : h4.status = Spec.stSuccess := by rw [s4.1, hh3']; exact s3.1.trans s2.1
+  have hab4 : h4.hab = (if r.locked then Spec.stHabIsLocked else Spec.rUnlocked) := by
+    rw [s4.2.1, hh3']
+    show (if habWord r ≠ Spec.rUnlocked then Spec.stHabIsLocked else habWord r) = _
+    unfold habWord
+    cases r.locked <;> simp [Spec.rLocked, Spec.rUnlocked]
+  have n1 : ¬ (c.tag = Spec.cWriteDcd ∧ sv ≠ Spec.rWriteDataOk) :=
+    fun ⟨a, b⟩ => b (hnf (by rw [a]; simp [Spec.cWriteDcd, Spec.cWriteFile]))
+  have n2 : ¬ (c.tag = Spec.cWriteCsf ∧ sv ≠ Spec.rWriteDataOk) :=
+    fun ⟨a, b⟩ => b (hnf (by rw [a]; simp [Spec.cWriteCsf, Spec.cWriteFile]))
+  rw [if_neg n1, if_neg n2]
+  by_cases hbad : c.tag = Spec.cWriteFile ∧ sv ≠ Spec.rWriteFileOk
+  · rw [if_pos hbad]
+    simp only [bind_run, modify_run, pure_run, get_run]
+    cases hce : h.ce with
+    | false =>
+      have : h4.ce = false := c4.trans hce
+      simp only [this, Bool.false_eq_true, and_false, if_false, pure_run]
+      refine ⟨_, _, rfl, l4.upd rfl rfl rfl rfl rfl rfl, hab4, rfl, t4, p4, fun x => absurd (x hbad.1) hbad.2, fun _ _ => ⟨rfl, rfl⟩⟩
+    | true =>
+      have : h4.ce = true := c4.trans hce
+      simp only [this, Bool.false_eq_true, not_false_eq_true, and_self, if_true, fail_run]
+      refine ⟨_, _, rfl, l4.upd rfl rfl rfl rfl rfl rfl, hab4, rfl, t4, p4, fun x => absurd (x hbad.1) hbad.2, fun _ _ => ⟨rfl, rfl⟩⟩
+  · rw [if_neg hbad]
+    simp only [pure_run, get_run, not_true_eq_false, false_and, if_false]
+    refine ⟨_, _, rfl, l4.upd rfl rfl rfl rfl rfl rfl, hab4, c4, t4, p4, fun _ => ⟨rfl, st4⟩, fun a b => absurd ⟨a, b⟩ hbad⟩
+
+theorem statusTail_ok (okv failSt : Nat) (h : Host) : statusTail okv okv failSt h = (.ok (.bool true), h) := by
+  simp [statusTail]
+
+theorem statusTail_bad (st okv failSt : Nat) (h : Host) (hne : st ≠ okv) :
+    statusTail st okv failSt h =
+      ((if h.ce then .error (.cmd failSt) else .ok (.bool false)), { h with status := failSt }) := by
+  unfold statusTail
+  rw [if_pos hne]
+  simp only [bind_run, modify_run, get_run]
+  cases h.ce <;> rfl
+
+theorem Synced.linked {h : Host} {r : Rom} (hs : Synced h r) : Linked h r [] := by
+  refine ⟨hs.opened, hs.pack, ?_⟩
+  rcases hs.peer with ⟨a, b⟩ | ⟨a, b⟩
+  · exact Or.inl ⟨a, b, by simp [hs.rx], hs.rxR⟩
+  · exact Or.inr ⟨a, b, hs.rx, by simp [hs.rxR]⟩
+
+theorem Linked.synced {h : Host} {r : Rom} (hl : Linked h r []) (hr : r.recv = none) : Synced h r := by
+  obtain ⟨ho, hp, hc⟩ := hl
+  rcases hc with ⟨a, b, c, d⟩ | ⟨a, b, c, d⟩
+  · exact ⟨Or.inl ⟨a, b⟩, hr, by simpa using c, d, ho, hp⟩
+  · exact ⟨Or.inr ⟨a, b⟩, hr, c, by simpa using d, ho, hp⟩
 
 /-- one SDP operation against the live ROM, either transport -/
 theorem sdp_op_refines (h : Host) (r r' : Rom) (op : Op) (res : Except SErr Val) (st hab : Nat)
     (hs : Synced h r) (hr : r.OK) (hargs : op.argsOK) (hspec : specOp h.ce r op = some (r', res, st, hab)) :
     ∃ h', runOp op h = (res, h') ∧ Synced h' r' ∧ h'.status = st ∧ h'.hab = hab ∧ h'.ce = h.ce ∧ h'.tr = h.tr ∧
       h'.packSize = h.packSize := by
-  sorry
+  have hl : Linked h r [] := hs.linked
+  have hrecv : r.recv = none := hs.recv
+  obtain ⟨hmem, hforced, herr⟩ := hr
+  cases op with
+  | read a n f =>
+    obtain ⟨ha, hn, hf⟩ := hargs
+    simp only [specOp] at hspec
+    split at hspec
+    · rename_i hle
+      simp only [Option.some.injEq, Prod.mk.injEq] at hspec
+      obtain ⟨rfl, rfl, rfl, rfl⟩ := hspec
+      have hstep := rom_read r a n f hrecv ha hn hf hle
+      have hfit : (⟨Spec.cReadRegister, a, f, n, 0⟩ : Cmd).fits := ⟨by simp [Spec.cReadRegister], ha, hf, hn, by simp⟩
+      obtain ⟨h1, e1, l1, st1, hab1, c1, t1, p1⟩ := processCmd_linked h r _ ((r.mem.drop a).take n) hl hrecv hfit (by rw [hstep])
+      rw [hstep] at l1
+      obtain ⟨h2, e2, l2, s2⟩ := readData_linked _ n _ h1 l1 (by simp [List.length_take, List.length_drop]; omega)
+      refine ⟨h2, ?_, l2.synced hrecv, s2.1.trans st1, s2.2.1.trans hab1, s2.2.2.1.trans c1, s2.2.2.2.1.trans t1,
+        s2.2.2.2.2.trans p1⟩
+      simp only [runOp, bind_run, e1, e2]
+      rfl
+    · simp at hspec
+  | write a v c f =>
+    obtain ⟨ha, hv, hc, hf⟩ := hargs
+    have hfit : (⟨Spec.cWriteRegister, a, f, c, v⟩ : Cmd).fits := ⟨by simp [Spec.cWriteRegister], ha, hf, hc, hv⟩
+    simp only [specOp] at hspec
+    split at hspec
+    · rename_i hok
+      simp only [Option.some.injEq, Prod.mk.injEq] at hspec
+      obtain ⟨rfl, rfl, rfl, rfl⟩ := hspec
+      have hstep := rom_write_ok r a v c f hrecv hforced ha hv hc hf hok
+      obtain ⟨h1, e1, l1, st1, hab1, c1, t1, p1⟩ := processCmd_linked h r _ (be 4 Spec.rWriteDataOk) hl hrecv hfit (by rw [hstep])
+      rw [hstep, chunks_small _ (by simp [be]) (by simp)] at l1
+      obtain ⟨h2, e2, l2, s2⟩ := readStatus_linked h1 _ false Spec.rWriteDataOk [] l1 (by simp [Spec.rWriteDataOk])
+      refine ⟨h2, ?_, l2.synced hrecv, s2.1.trans st1, s2.2.1.trans hab1, s2.2.2.1.trans c1, s2.2.2.2.1.trans t1,
+        s2.2.2.2.2.trans p1⟩
+      simp only [runOp, bind_run, e1, e2, statusTail_ok]
+    · rename_i hok
+      simp only [Option.some.injEq, Prod.mk.injEq] at hspec
+      obtain ⟨rfl, rfl, rfl, rfl⟩ := hspec
+      have hstep := rom_write_bad r a v c f hrecv hforced ha hv hc hf hok
+      obtain ⟨h1, e1, l1, st1, hab1, c1, t1, p1⟩ := processCmd_linked h r _ (be 4 0) hl hrecv hfit (by rw [hstep])
+      rw [hstep, chunks_small _ (by simp [be]) (by simp)] at l1
+      obtain ⟨h2, e2, l2, s2⟩ := readStatus_linked h1 _ false 0 [] l1 (by simp)
+      refine ⟨{ h2 with status := Spec.stWriteRegisterFailure }, ?_,
+        (Linked.upd (h' := { h2 with status := Spec.stWriteRegisterFailure }) l2 rfl rfl rfl rfl rfl rfl).synced hrecv, rfl,
+        s2.2.1.trans hab1, s2.2.2.1.trans c1, s2.2.2.2.1.trans t1, s2.2.2.2.2.trans p1⟩
+      simp only [runOp, bind_run, e1, e2]
+      rw [statusTail_bad _ _ _ _ (by simp [Spec.rWriteDataOk]), s2.2.2.1.trans c1]
+  | writeFile a d =>
+    obtain ⟨ha, hd⟩ := hargs
+    have hfit : (⟨Spec.cWriteFile, a, 0, d.length, 0⟩ : Cmd).fits := ⟨by simp [Spec.cWriteFile], ha, by simp, hd, by simp⟩
+    have hdp := rom_file r a d hrecv hforced ha hd
+    simp only [specOp] at hspec
+    split at hspec
+    · rename_i hok
+      simp only [Option.some.injEq, Prod.mk.injEq] at hspec
+      obtain ⟨rfl, rfl, rfl, rfl⟩ := hspec
+      simp only [hok, if_true] at hdp
+      obtain ⟨res, h', e, l, hab', c', t', p', hA, _⟩ := sendData_linked h r _ _ d _ hl hrecv hfit hdp
+        (by simp [Spec.rWriteFileOk]) (fun x => absurd rfl x)
+      obtain ⟨rfl, st'⟩ := hA (fun _ => rfl)
+      refine ⟨h', ?_, l.synced hrecv, st', hab', c', t', p'⟩
+      simp only [runOp, bind_run, e]
+      rfl
+    · rename_i hok
+      simp only [Option.some.injEq, Prod.mk.injEq] at hspec
+      obtain ⟨rfl, rfl, rfl, rfl⟩ := hspec
+      simp only [hok, if_false] at hdp
+      obtain ⟨res, h', e, l, hab', c', t', p', _, hB⟩ := sendData_linked h r _ _ d _ hl hrecv hfit hdp
+        (by simp) (fun x => absurd rfl x)
+      obtain ⟨rfl, st'⟩ := hB rfl (by simp [Spec.rWriteFileOk])
+      refine ⟨h', ?_, l.synced hrecv, st', hab', c', t', p'⟩
+      simp only [runOp, bind_run, e]
+      cases h.ce <;> rfl
+  | writeDcd a d =>
+    obtain ⟨ha, hd⟩ := hargs
+    have hfit : (⟨Spec.cWriteDcd, a, 0, d.length, 0⟩ : Cmd).fits := ⟨by simp [Spec.cWriteDcd], ha, by simp, hd, by simp⟩
+    have hdp := rom_dcd r a d hrecv hforced ha hd
+    simp only [specOp, Option.some.injEq, Prod.mk.injEq] at hspec
+    obtain ⟨rfl, rfl, rfl, rfl⟩ := hspec
+    obtain ⟨res, h', e, l, hab', c', t', p', hA, _⟩ := sendData_linked h r _ _ d _ hl hrecv hfit hdp
+      (by simp [Spec.rWriteDataOk]) (fun _ => rfl)
+    obtain ⟨rfl, st'⟩ := hA (fun x => by simp [Spec.cWriteDcd, Spec.cWriteFile] at x)
+    refine ⟨h', ?_, l.synced hrecv, st', hab', c', t', p'⟩
+    simp only [runOp, bind_run, e]
+    rfl
+  | writeCsf a d =>
+    obtain ⟨ha, hd⟩ := hargs
+    have hfit : (⟨Spec.cWriteCsf, a, 0, d.length, 0⟩ : Cmd).fits := ⟨by simp [Spec.cWriteCsf], ha, by simp, hd, by simp⟩
+    have hdp := rom_csf r a d hrecv hforced ha hd
+    simp only [specOp, Option.some.injEq, Prod.mk.injEq] at hspec
+    obtain ⟨rfl, rfl, rfl, rfl⟩ := hspec
+    obtain ⟨res, h', e, l, hab', c', t', p', hA, _⟩ := sendData_linked h r _ _ d _ hl hrecv hfit hdp
+      (by simp [Spec.rWriteDataOk]) (fun _ => rfl)
+    obtain ⟨rfl, st'⟩ := hA (fun x => by simp [Spec.cWriteCsf, Spec.cWriteFile] at x)
+    refine ⟨h', ?_, l.synced hrecv, st', hab', c', t', p'⟩
+    simp only [runOp, bind_run, e]
+    rfl
+  | skipDcd =>
+    have hfit : (⟨Spec.cSkipDcdHeader, 0, 0, 0, 0⟩ : Cmd).fits := by decide
+    simp only [specOp, Option.some.injEq, Prod.mk.injEq] at hspec
+    obtain ⟨rfl, rfl, rfl, rfl⟩ := hspec
+    have hstep := rom_skip r hrecv hforced
+    obtain ⟨h1, e1, l1, st1, hab1, c1, t1, p1⟩ := processCmd_linked h r _ (be 4 Spec.rSkipDcdHeaderOk) hl hrecv hfit (by rw [hstep])
+    rw [hstep, chunks_small _ (by simp [be]) (by simp)] at l1
+    obtain ⟨h2, e2, l2, s2⟩ := readStatus_linked h1 _ false Spec.rSkipDcdHeaderOk [] l1 (by simp [Spec.rSkipDcdHeaderOk])
+    refine ⟨h2, ?_, l2.synced hrecv, s2.1.trans st1, s2.2.1.trans hab1, s2.2.2.1.trans c1, s2.2.2.2.1.trans t1,
+      s2.2.2.2.2.trans p1⟩
+    simp only [runOp, bind_run, e1, e2, statusTail_ok]
+  | jumpAndRun a =>
+    have ha : a < 4294967296 := hargs
+    have hfit : (⟨Spec.cJumpAddress, a, 0, 0, 0⟩ : Cmd).fits := ⟨by simp [Spec.cJumpAddress], ha, by simp, by simp, by simp⟩
+    simp only [specOp, Option.some.injEq, Prod.mk.injEq] at hspec
+    obtain ⟨rfl, rfl, rfl, rfl⟩ := hspec
+    have hstep := rom_jump r a hrecv ha
+    obtain ⟨h1, e1, l1, st1, hab1, c1, t1, p1⟩ := processCmd_linked h r _ [] hl hrecv hfit (by rw [hstep])
+    rw [hstep, chunks_nil] at l1
+    refine ⟨h1, ?_, l1.synced hrecv, st1, hab1, c1, t1, p1⟩
+    simp only [runOp, bind_run, e1]
+    rfl
+  | readStatus =>
+    have hfit : (⟨Spec.cErrorStatus, 0, 0, 0, 0⟩ : Cmd).fits := by decide
+    simp only [specOp, Option.some.injEq, Prod.mk.injEq] at hspec
+    obtain ⟨rfl, rfl, rfl, rfl⟩ := hspec
+    have hstep := rom_status r hrecv hforced
+    obtain ⟨h1, e1, l1, st1, hab1, c1, t1, p1⟩ := processCmd_linked h r _ (be 4 r.errStatus) hl hrecv hfit (by rw [hstep])
+    rw [hstep, chunks_small _ (by simp [be]) (by simp)] at l1
+    obtain ⟨h2, e2, l2, s2⟩ := readStatus_linked h1 _ false r.errStatus [] l1 herr
+    refine ⟨h2, ?_, l2.synced hrecv, s2.1.trans st1, s2.2.1.trans hab1, s2.2.2.1.trans c1, s2.2.2.2.1.trans t1,
+      s2.2.2.2.2.trans p1⟩
+    simp only [runOp, bind_run, e1, e2]
+    rfl
+  | sdpsWriteFile nc ps d => simp [specOp] at hspec
 
 /-- any sequence of covered operations, by induction over the history -/
 theorem sdp_no_fault_refines (ops : List Op) (h : Host) (r r' : Rom) (rs : List (Except SErr Val × Nat × Nat))
     (hs : Synced h r) (hr : r.OK) (hargs : ∀ op ∈ ops, op.argsOK) (hspec : specOps h.ce ops r = some (rs, r')) :
     ∃ h', runOps ops h = (rs, h') ∧ Synced h' r' := by
-  sorry
+  induction ops generalizing h r rs with
+  | nil =>
+    simp only [specOps, Option.some.injEq, Prod.mk.injEq] at hspec
+    obtain ⟨rfl, rfl⟩ := hspec
+    exact ⟨h, rfl, hs⟩
+  | cons op ops ih =>
+    simp only [specOps] at hspec
+    cases h1 : specOp h.ce r op with
+    | none => rw [h1] at hspec; simp at hspec
+    | some x =>
+      obtain ⟨r1, res, st, hab⟩ := x
+      rw [h1] at hspec
+      simp only at hspec
+      cases h2 : specOps h.ce ops r1 with
+      | none => rw [h2] at hspec; simp at hspec
+      | some y =>
+        obtain ⟨rs1, r2⟩ := y
+        rw [h2] at hspec
+        simp only [Option.some.injEq, Prod.mk.injEq] at hspec
+        obtain ⟨rfl, rfl⟩ := hspec
+        have ha : op.argsOK := hargs op (by simp)
+        obtain ⟨h', e, s', st', hab', ce', _, _⟩ := sdp_op_refines h r r1 op res st hab hs hr ha h1
+        obtain ⟨ok1, rc1⟩ := specOp_OK h.ce r r1 op res st hab hr hs.recv ha h1
+        obtain ⟨h'', e2, s''⟩ := ih h' r1 rs1 s' ok1 (fun o ho => hargs o (by simp [ho])) (by rw [ce']; exact h2)
+        refine ⟨h'', ?_, s''⟩
+        simp only [runOps, e, e2, st', hab']
 
 /-- SDPS / SDP-over-HID framing: the reports carry exactly the data, in order, each `1 + size` bytes with the report id first -/
 theorem hidFrames_deliver (rid size : Nat) (b : Bytes) (hs : 0 < size) :
     (((hidFrames rid size b).map (List.drop 1)).flatten.take b.length = b) ∧
     (∀ f ∈ hidFrames rid size b, f.length = 1 + size ∧ f.head? = some (UInt8.ofNat rid)) ∧
-    ((hidFrames rid size b).length = (b.length + size - 1) / size) := by
-  sorry
+    ((hidFrames rid size b).length = (b.length + size - 1) / size) :=
+  framesOf_deliver rid size hs b.length b (Nat.le_refl _)
+
 
 end SpsdkVerif.Sdp
